@@ -300,7 +300,20 @@ func runProperty(p propCfg, tier string) int {
 		for ei, penv := range envs {
 			logPath := filepath.Join(logDir, fmt.Sprintf("%s.replay%d.log", p.ID, ei))
 			env := append([]string{"VERIF_REPLAY_DIR=" + replayDir, "VERIF_KNOWN=" + knownPath(), "VERIF_TIER=" + tier}, penv...)
-			code, to, out := runTest(bins[false], []string{"-test.run", "^TestReplay$", "-test.v", "-test.timeout", "10m"}, env, 11*time.Minute, logPath)
+			// committed cases of properties with a race-build part are replayed under the race detector
+			code, to, out := runTest(bins[needRace], []string{"-test.run", "^TestReplay$", "-test.v", "-test.timeout", "10m"}, env, 11*time.Minute, logPath)
+			if strings.Contains(out, "WARNING: DATA RACE") {
+				violations++
+				last := replayDir
+				for _, l := range strings.Split(out, "\n") {
+					if strings.HasPrefix(l, "REPLAYING file=") {
+						last = strings.TrimPrefix(l, "REPLAYING file=")
+					}
+				}
+				violationLines = append(violationLines, fmt.Sprintf("VIOLATION property=%s replay=%s", p.ID, last))
+				fmt.Fprintf(os.Stderr, "vcheck: data race while replaying %s; log %s\n%s\n", replayDir, logPath, tailOf(out, 60))
+				continue
+			}
 			sc := bufio.NewScanner(strings.NewReader(out))
 			sc.Buffer(make([]byte, 1<<20), 1<<24)
 			nv := 0
